@@ -322,6 +322,25 @@ def check_items(res, items, consts, word, lo, hi):
                     case, expected=ov.brief(), observed=oc.brief(), mechanism=mech)
 
 
+def check_twins(res, prog, args, word, tag):
+    """a whole GenAST program in its written form and with every literal routed through the mutable global: same timeline"""
+    src_c, src_v = A.render(prog), A.render(prog, opaque=True)
+    res['evaluations'] += 1
+    case = diff.case_dict(src_c, args, word, diff.GENEROUS_STACK, twin=src_v, gen=tag)
+    rc = diff.compile_and_run(src_c, args, word=word, max_steps=MAX_STEPS, monitors=False)
+    rv = diff.compile_and_run(src_v, args, word=word, max_steps=MAX_STEPS, monitors=False)
+    if rc.kind != 'ok' or rv.kind != 'ok':
+        runner.fail(res, 'M-FOLD', f'{tag}: written form: {rc.kind} {rc.detail or ""}; run-time twin: {rv.kind} {rv.detail or ""}', case)
+        return
+    oc, ov = rc.outcome, rv.outcome
+    if oc.stream != ov.stream or oc.klass != ov.klass:
+        runner.fail(res, 'M-FOLD', f'{tag}: written form prints {oc.out[:60]!r} ({oc.klass}) but its run-time twin prints {ov.out[:60]!r} ({ov.klass})',
+                    case, expected=ov.brief(), observed=oc.brief())
+        return
+    runner.count(res, 'program_twins_identical')
+    res['nontrivial'].append(runner.case_id(src_c, tuple(args), word))
+
+
 def run_shard(spec):
     res = runner.new_result()
     word = spec['word']
@@ -338,6 +357,16 @@ def run_shard(spec):
     if spec['kind'] == 'forms':
         for tag, items, consts in forms(word, bits, hi):
             check_items(res, items, consts, word, lo, hi)
+        # whole programs whose literals decide where data lives and which code is emitted (array literals made of constants
+        # bound to mutable arrays, constant indices, literal operands next to calls): written form vs run-time twin
+        from ..gen import idioms
+        for gen, argsets, stride in ((idioms.fresh_literal_programs, idioms.FRESH_ARGS, 1), (idioms.capture_programs, idioms.CAPTURE_ARGS[:1], 9),
+                                     (idioms.operand_programs, idioms.OPERAND_ARGS[:1], 4), (idioms.narrowing_programs, idioms.NARROW_ARGS[:2], 3),
+                                     (idioms.table_programs, idioms.TABLE_ARGS, 3)):
+            for k, (tag, prog) in enumerate(gen()):
+                if k % stride == 0:
+                    for args in argsets:
+                        check_twins(res, prog, args, word, tag)
         res['exhaustive'] = True
         return res
     for i in range(spec['count']):
